@@ -12,6 +12,32 @@ def _run_dill_encoded(payload):
     return res
 
 
+class _WorkerFailure:
+    """
+    Picklable record of an exception raised by a task in a worker process.
+    """
+
+    def __init__(self, exception):
+        import pickle
+        import traceback
+
+        self.description = "".join(
+            traceback.format_exception(
+                type(exception), exception, exception.__traceback__
+            )
+        )
+        try:
+            pickle.loads(pickle.dumps(exception))
+            self.exception = exception
+        except Exception:
+            self.exception = None
+
+    def reraise(self):
+        if self.exception is not None:
+            raise self.exception
+        raise RuntimeError("Task failed in worker process:\n" + self.description)
+
+
 class ParallelMap:
     """
     Apply functions in parallel, using dill for pickling, inspired by example here
@@ -69,9 +95,16 @@ class ParallelMap:
         f_Z = equilibrium.f_Z
         while True:
             i, function, args, kwargs = task_queue.get()
-            result = function(
-                *args, equilibrium=equilibrium, psi=psi, f_R=f_R, f_Z=f_Z, **kwargs
-            )
+            try:
+                result = function(
+                    *args, equilibrium=equilibrium, psi=psi, f_R=f_R, f_Z=f_Z, **kwargs
+                )
+            except BaseException as e:
+                # Pass the failure back to the caller instead of dying: a dead worker
+                # never returns its result, so __call__() would wait forever.
+                # (BaseException because e.g. func_timeout.FunctionTimedOut is not an
+                # Exception.)
+                result = _WorkerFailure(e)
             result_queue.put((i, result))
 
     def __call__(self, function, args_list, **kwargs):
@@ -98,6 +131,12 @@ class ParallelMap:
         for count in range(n_tasks):
             i, this_result = self.result_queue.get()
             result[i] = this_result
+
+        # All results have been collected, so the queues are in a consistent state. If
+        # any task failed, raise the exception of the first one, as a serial loop would.
+        for this_result in result:
+            if isinstance(this_result, _WorkerFailure):
+                this_result.reraise()
 
         if not self.task_queue.empty():
             raise ValueError("Some tasks not finished")
